@@ -395,7 +395,7 @@ def run(chk, ctx):
                 check_kernel_case(chk, ctx, c)
     from . import c02_precalc
     c02_precalc.run(chk, ctx, rng)
-    k_kernel_programs(chk, ctx, common.Rng(ctx['seed'], 'C02-kernel-programs'), 1 if tier == 'quick' else 5)
+    k_kernel_programs(chk, ctx, common.Rng(ctx['seed'], 'C02-kernel-programs'), 3 if tier == 'quick' else 8)
     from .integ_common import k_program
     k_program(chk, ctx, common.Rng(ctx['seed'], 'C02-program'), 1 if tier == 'quick' else 4, tier, modes=('const', 'delj', 'delj-one', 'vary'))
     l3_const_fn(chk, ctx, rng, 24 if tier == 'quick' else 90)
